@@ -3,7 +3,8 @@ from lib import semcheck, progs, progs_shapes
 from lib.semcheck import impl, model_expr, compare, oracle, describe, shrink, IMPORTS
 
 ID = 'C05'
-THEOREMS = ['C05_cut_code_correct', 'C05_compiled_program_computes_reference', 'C05_cut_prunes_later_clauses', 'C05_no_cut_continues', 'C05_cut_local_to_predicate', 'C05_query_result_after_cut', 'C05_cut_spec_readable', 'C05_cut_first']
+THEOREMS = ['C05_cut_code_correct', 'C05_compiled_program_computes_reference', 'C05_cut_prunes_later_clauses', 'C05_no_cut_continues', 'C05_cut_local_to_predicate', 'C05_query_result_after_cut', 'C05_cut_spec_readable', 'C05_cut_first',
+            'C05_cut_in_disjunction_branch', 'C05_cut_in_then_branch', 'C05_cut_in_else_branch', 'C05_cut_survives_continuation', 'C05_cut_continuation_backtracks']
 CASE_TIMEOUT = 60
 MODEL_NEEDS_IMPL = True
 COQ_CHUNK = 20
